@@ -141,6 +141,16 @@ func c16LocalB() interface{} {
 
 type C16Map map[string]int
 
+// function-valued members of less common types: a NAMED type with the signature of the "fast" calling convention,
+// a variadic function over a non-empty interface, functions as the values of a TYPED map
+type C16Fast func(...interface{}) interface{}
+type C16Funcs2 struct {
+	Fa  C16Fast
+	Fst func(...fmt.Stringer) fmt.Stringer
+	Fe  func(...interface{}) error
+	V   int
+}
+
 // a NAMED map type whose underlying type is map[string]interface{}
 type C16Vars map[string]interface{}
 
@@ -179,6 +189,8 @@ func c16Catalogue() map[string]interface{} {
 		"MethodOverField": C16MethodOverField{C16RateIn: C16RateIn{Rate: 1}}, "*MethodOverField": &C16MethodOverField{},
 		"MethodOverAmbig": C16MethodOverAmbig{}, "MapClash": C16MapClash{"Rate": 5, "x": 1},
 		"LocalA": c16LocalA(), "LocalB": c16LocalB(), "LocalA-again": c16LocalA(),
+		"Funcs2": C16Funcs2{Fa: func(...interface{}) interface{} { return 1 }, Fst: func(...fmt.Stringer) fmt.Stringer { return nil }, Fe: func(...interface{}) error { return nil }},
+		"map[string]func() int": map[string]func() int{"fn": func() int { return 1 }, "Other": func() int { return 2 }},
 		"Vars": C16Vars{"A": 1, "count": 2, "fn": func() int { return 1 }, "Nested": wrap.SA, "nilv": nil},
 	}
 }
